@@ -18,10 +18,11 @@ Import ListNotations.
 """
 
 FINDINGS = {
-    'refit': 'S6a-refit-keeps-knots',
-    'shared': 'S6b-shared-term-objects',
-    'keep_best': 'S6c-keep-best-aliasing',
-    'shared_overwrite': 'S6d-shared-term-overwritten',
+    # S6a-refit-keeps-knots and S6c-keep-best-aliasing are repaired in /repo ("fix: a spline term kept the knots of the first data set
+    # it was compiled on", "fix: gridsearch(keep_best=True) left the model sharing objects with a returned candidate"): their former
+    # witnesses are regression probes below and anything like them is an untagged violation.
+    'shared': 'S6b-shared-term-objects',              # a SPLINE term object shared by two models is recompiled by the other model's fit
+    'shared_overwrite': 'S6d-shared-term-overwritten',  # the same for factor / linear terms
 }
 KINDS = {'s': 'KSpline', 'f': 'KFactor', 'l': 'KLinear'}
 NDATA = 3
@@ -213,23 +214,30 @@ class Hist(object):
             return
         if r < 0.90:
             ids_before = [id(t) for t in user_terms(model)]
+            coef_before = model.coef_.copy() if fitted else None
             out = self.guarded('gridsearch(keep_best=True)', m, d,
                                lambda g, X, y, w: g.gridsearch(X, y, lam=np.array([0.5, 5.0]), keep_best=True, progress=False),
                                query=False)
             if isinstance(out, Exception):
                 raise RuntimeError('gridsearch raised: %r' % out)
             new = user_terms(model)
-            self_best = fitted and [id(t) for t in new] == ids_before
+            # the already fitted self stayed best iff its coefficients are (bitwise) the ones it had
+            self_best = bool(fitted and coef_before.shape == model.coef_.shape and (coef_before == model.coef_).all())
+            if not fitted:          # self's own term objects were compiled first (by _validate_data_dep_params)
+                for x in ids_before:
+                    self.first_compile.setdefault(self.tid_by_pyid(x), (m, d))
+            # either way the model now holds deep copies of the winner's term objects
+            old_ids = [self.tid_by_pyid(x) for x in ids_before]
+            if any(id(t) in ids_before for t in new):
+                self.res.violations.append(dict(what='gridsearch(keep_best=True) left the model holding term objects that existed before '
+                                                     '(shared with the caller / other models / candidates)', finding=None,
+                                                input=dict(history=self.log + ['m%d.gridsearch(data%d, keep_best=True)' % (m, d)]),
+                                                observed='same objects', expected='copies'))
+            for t, oi in zip(new, old_ids):
+                self.terms.append(t)
+                self.specs.append(self.specs[oi])
+                self.first_compile[len(self.terms) - 1] = (m, d if not self_best else self.fitdata[m])
             if not self_best:
-                if not fitted:          # self's own terms were compiled first
-                    for i in [self.tid(t) for t in self.terms if id(t) in ids_before]:
-                        self.first_compile.setdefault(i, (m, d))
-                old_ids = [i for i in range(len(self.terms)) if id(self.terms[i]) in ids_before]
-                old_ids = [self.tid_by_pyid(x) for x in ids_before]
-                for t, oi in zip(new, old_ids):
-                    self.terms.append(t)
-                    self.specs.append(self.specs[oi])
-                    self.first_compile[len(self.terms) - 1] = self.first_compile.get(oi, (m, d))
                 self.fitdata[m] = d
             self.ops.append('(GridsearchKeep %d %d %s)' % (m, d, coq_bool(self_best)))
             self.log.append('m%d.gridsearch(data%d, keep_best=True)%s' % (m, d, ' [self stayed best]' if self_best else ''))
@@ -328,16 +336,11 @@ def history_cases(res, rng, count, data):
                 for i, k in zip(ids, kn):
                     if h.specs[i][0] == 'l' or k == d:
                         continue
-                    fc = h.first_compile.get(i)
-                    if h.specs[i][0] != 's':
-                        # the model's own fit always rewrites a factor term's state: a mismatch is another model's compile
-                        reasons.add('shared_overwrite')
-                    elif fc is not None and fc[0] != m:
-                        reasons.add('shared')
-                    else:
-                        reasons.add('refit')
+                    # the model's own fit always regenerates the data-dependent state of its terms (user-given knots are not
+                    # generated here): a mismatch is another model's compile of a shared object
+                    reasons.add('shared' if h.specs[i][0] == 's' else 'shared_overwrite')
                 finding = None
-                for key in ('refit', 'shared', 'shared_overwrite'):
+                for key in ('shared', 'shared_overwrite'):
                     if key in reasons:
                         finding = FINDINGS[key]
                         break
@@ -444,16 +447,33 @@ def direct_probes(res, data):
 
     def differs(a, b):
         return not np.allclose(a, b, rtol=1e-6, atol=1e-8)
-    # (a) refit on other data
+    # (a) refit on other data: regression probe of the repaired S6a
     fresh = LinearGAM(s(0, n_splines=5)).fit(XB, yB).predict(XB)
     g = LinearGAM(s(0, n_splines=5)).fit(XA, yA).fit(XB, yB)
     res.case(('probe', 'refit'))
     if differs(g.predict(XB), fresh):
-        res.violations.append(dict(what='fit(A) then fit(B) differs from a fresh fit(B)', finding=FINDINGS['refit'],
+        res.violations.append(dict(what='fit(A) then fit(B) differs from a fresh fit(B)', finding=None,
                                    input=dict(model='LinearGAM(s(0, n_splines=5))', history=['fit(data1)', 'fit(data2)']),
                                    observed=dict(edge_knots=[float(x) for x in g.terms[0].edge_knots_],
                                                  max_abs_diff=float(np.abs(g.predict(XB) - fresh).max())),
                                    expected='same predictions as a fresh model'))
+    # ... also for a deep copy / pickle of a fitted model, and with user-given knots kept
+    g = LinearGAM(s(0, n_splines=5)).fit(XA, yA)
+    for via, c in (('deepcopy', copy.deepcopy(g)), ('pickle', pickle.loads(pickle.dumps(g)))):
+        c.fit(XB, yB)
+        res.case(('probe', 'refit-' + via))
+        if differs(c.predict(XB), fresh):
+            res.violations.append(dict(what='%s of a model fitted on A, fitted on B, differs from a fresh fit(B)' % via, finding=None,
+                                       input=dict(model='LinearGAM(s(0, n_splines=5))', history=['fit(data1)', via, 'fit(data2)']),
+                                       observed='different', expected='same predictions as a fresh model'))
+    ek = [float(XB[:, 0].min()) - 0.5, float(XB[:, 0].max()) + 0.5]
+    fresh_k = LinearGAM(s(0, n_splines=5, edge_knots=list(ek))).fit(XB, yB)
+    gk = LinearGAM(s(0, n_splines=5, edge_knots=list(ek))).fit(XA, yA).fit(XB, yB)
+    res.case(('probe', 'refit-given-knots'))
+    if differs(gk.predict(XB), fresh_k.predict(XB)) or [float(x) for x in gk.terms[0].edge_knots_] != ek:
+        res.violations.append(dict(what='user-given edge_knots are not kept across fits (or the refit differs from a fresh fit)', finding=None,
+                                   input=dict(model='LinearGAM(s(0, n_splines=5, edge_knots=%r))' % ek, history=['fit(data1)', 'fit(data2)']),
+                                   observed=dict(edge_knots=[float(x) for x in gk.terms[0].edge_knots_]), expected=ek))
     # same data twice is fine
     g = LinearGAM(s(0, n_splines=5)).fit(XB, yB).fit(XB, yB)
     res.case(('probe', 'refit-same'))
@@ -467,55 +487,53 @@ def direct_probes(res, data):
     if differs(gc.predict(XB), fresh):
         res.violations.append(dict(what='deep copy of an unfitted model fitted on B differs from a fresh fit(B)', finding=None,
                                    input=dict(history=['deepcopy', 'fit(data2)']), observed='different', expected='same'))
-    # (b) one term expression, two models
-    t = s(0, n_splines=5)
-    g1, g2 = LinearGAM(t), LinearGAM(t)
-    g1.fit(XA, yA)
-    pA = g1.predict(XA)
-    g2.fit(XB, yB)
-    res.case(('probe', 'shared'))
-    if differs(g2.predict(XB), fresh):
-        res.violations.append(dict(what='a model built from a term expression already used by a fitted model differs from a fresh fit',
-                                   finding=FINDINGS['shared'], input=dict(expr='t = s(0, n_splines=5)', history=['LinearGAM(t).fit(data1)', 'LinearGAM(t).fit(data2)']),
-                                   observed=dict(shared=bool(g1.terms[0] is g2.terms[0])), expected='same predictions as a fresh model'))
-    if differs(g1.predict(XA), pA):
-        res.violations.append(dict(what='fitting one model changed another model\'s predictions (shared spline term)', finding=None,
-                                   input=dict(expr='t = s(0)'), observed='changed', expected='unchanged'))
-    # (d) shared factor term is overwritten in place
-    t = f(1)
-    g1, g2 = LinearGAM(t), LinearGAM(t)
-    g1.fit(XA, yA)
-    pA = g1.predict(XA)
-    g2.fit(XB, yB)
-    res.case(('probe', 'shared-factor'))
-    try:
-        changed = differs(g1.predict(XA), pA)
-    except Exception as e:
-        changed = True
-    if changed:
-        res.violations.append(dict(what='fitting one model changed another model\'s predictions (shared factor term overwritten by compile)',
-                                   finding=FINDINGS['shared_overwrite'],
-                                   input=dict(expr='t = f(1)', history=['g1 = LinearGAM(t).fit(data1)', 'g2 = LinearGAM(t).fit(data2)', 'g1.predict(X1)']),
-                                   observed='g1 predictions changed', expected='unchanged'))
-    # (c) keep_best leaves self sharing its term list with a returned candidate
-    g = LinearGAM(f(1))
-    scores = g.gridsearch(XA, yA, lam=np.array([0.5, 5.0]), keep_best=True, return_scores=True, progress=False)
-    cands = [c for c in scores.keys() if c is not g]
-    alias = [c for c in cands if c.terms is g.terms]
-    res.case(('probe', 'keep-best-alias'))
-    if alias:
-        c = alias[0]
-        pc = c.predict(XA)
-        g.fit(XB, yB)
+    # (b) one term expression, two models: the second model's own fit is that of a fresh model (regression probe), but the term
+    # objects are shared, so fitting the second model recompiles the first model's terms
+    for expr, mk, key in (('t = s(0, n_splines=5)', lambda: s(0, n_splines=5), 'shared'), ('t = f(1)', lambda: f(1), 'shared_overwrite'),
+                          ('t = s(0, n_splines=5) + l(2)', lambda: s(0, n_splines=5) + l(2), 'shared')):
+        fresh_e = LinearGAM(mk()).fit(XB, yB).predict(XB)
+        t = mk()
+        g1, g2 = LinearGAM(t), LinearGAM(t)
+        g1.fit(XA, yA)
+        pA = g1.predict(XA)
+        g2.fit(XB, yB)
+        res.case(('probe', 'shared', expr))
+        if differs(g2.predict(XB), fresh_e):
+            res.violations.append(dict(what='a model built from a term expression already used by a fitted model differs from a fresh fit',
+                                       finding=None, input=dict(expr=expr, history=['LinearGAM(t).fit(data1)', 'LinearGAM(t).fit(data2)']),
+                                       observed='different', expected='same predictions as a fresh model'))
         try:
-            changed = differs(c.predict(XA), pc)
-        except Exception:
+            changed = differs(g1.predict(XA), pA)
+        except Exception as e:
             changed = True
         if changed:
-            res.violations.append(dict(what='gridsearch(keep_best=True) leaves self sharing `terms` with a returned candidate: refitting self '
-                                            'changes the candidate\'s predictions', finding=FINDINGS['keep_best'],
-                                       input=dict(model='LinearGAM(f(1))', history=['gridsearch(data1, keep_best=True, return_scores=True)', 'fit(data2)']),
-                                       observed='candidate predictions changed', expected='unchanged'))
+            res.violations.append(dict(what='fitting one model changed another model\'s predictions (term objects of one term expression are '
+                                            'shared and recompiled in place)', finding=FINDINGS[key],
+                                       input=dict(expr=expr, history=['g1 = LinearGAM(t).fit(data1)', 'g2 = LinearGAM(t).fit(data2)', 'g1.predict(X1)']),
+                                       observed='g1 predictions changed', expected='unchanged'))
+    # (c) regression probe of the repaired S6c: after keep_best the model shares nothing with a returned candidate (nor with the
+    # caller's term expression), so refitting it leaves every candidate's predictions alone
+    t = f(1) + s(0, n_splines=5)
+    g = LinearGAM(t)
+    scores = g.gridsearch(XA, yA, lam=np.array([0.5, 5.0]), keep_best=True, return_scores=True, progress=False)
+    cands = [c for c in scores.keys() if c is not g]
+    mine = {id(x) for x in g.terms._terms}
+    alias = [c for c in cands if c.terms is g.terms or mine & {id(x) for x in c.terms._terms} or c.statistics_ is g.statistics_]
+    pcs = [c.predict(XA) for c in cands]
+    g.fit(XB, yB)
+    res.case(('probe', 'keep-best-alias'))
+    changed = False
+    for c, pc in zip(cands, pcs):
+        try:
+            changed = changed or differs(c.predict(XA), pc)
+        except Exception:
+            changed = True
+    if alias or changed or (mine & {id(x) for x in t._terms}):
+        res.violations.append(dict(what='gridsearch(keep_best=True) leaves self sharing objects with a returned candidate or with the caller\'s '
+                                        'term expression (refitting self changes a candidate\'s predictions)', finding=None,
+                                   input=dict(model='LinearGAM(f(1) + s(0, n_splines=5))',
+                                              history=['gridsearch(data1, keep_best=True, return_scores=True)', 'fit(data2)']),
+                                   observed=dict(aliased=bool(alias), candidate_predictions_changed=bool(changed)), expected='nothing shared'))
     # row-wise predictions when one query matrix holds rows on both sides of the training range
     g = LinearGAM(s(0, n_splines=6) + l(2)).fit(XA, yA)
     lo0, hi0 = XA[:, 0].min(), XA[:, 0].max()
